@@ -56,7 +56,7 @@ func (e *engine) Info() core.Info {
 			"every shared access of extract is lock-protected, so yielding before every lock acquisition and channel operation explores every distinguishable interleaving class; a change that REMOVES a lock is a data race this scheduler cannot see",
 			"osmxml.Scanner and encoding/xml are synchronous (no goroutines of their own); osmpbf's decoder goroutines are NOT simulated: they never touch a hook, their output order is deterministic and the main task waits for them while holding the token, so PBF runs replay exactly as long as no read error or cancellation is injected — PBF runs therefore use only the fault-free and legal-reader classes",
 			"Filter's own map iteration order is not behind a seam (the hooks are add-only); for correct code its result is order-independent; it is evaluated 4 times per run (64 times in a replay)",
-			"under an injected fault the only accepted outcomes are (nil, error) or (data equal to the model, nil)",
+			"under an injected fault the only accepted outcomes are an error (whatever accompanies it) or (data equal to the model, nil)",
 		},
 		QuickRuns: 400000, ThoroughRuns: 12000000, QuickWallS: 75, ThoroughWallS: 1500,
 	}
@@ -578,7 +578,9 @@ func (r *run) exec() {
 			return
 		}
 		if data != nil {
-			r.fail("partial-data-with-error", "", "ExtractXML returned both data and error %q", err)
+			// C18 says nothing about what accompanies an error; a caller must
+			// look at the error first: counted, not reported
+			r.res.Probe("data-returned-together-with-error")
 		}
 		return // a legitimately failed run
 	}
